@@ -430,6 +430,457 @@ def exhaustive_cases():
             yield {"clause": dc.clause(head, list(body)), "edb": EX_EDB, "shape": "exhaustive-B"}
 
 
+# ------------------------------------------------------- stream E: equalities, both orientations
+def eqfn_cases(rng):
+    """Every pairing of {constant, variable X, fn(Y, c), fn(Y, Z), wildcard} as the two sides of
+    an equality (both orientations arise), with the binder atom of each variable that occurs
+    placed BEFORE the equality, AFTER it (bound only further right) or nowhere; two heads.
+    Function symbol and constants vary per case. The class of seeded change C04-2: CheckRule's Eq
+    case must not leave before it has seen that every variable of a function application has a
+    value at that point."""
+    Xv, Yv, Zv = 0, 1, 2
+
+    def side(kind):
+        f = rng.choice(["plus", "plus", "minus", "mult"])
+        if kind == "c":
+            return n(rng.randint(0, 3))
+        if kind == "x":
+            return dc.var(Xv)
+        if kind == "w":
+            return list(WILD)
+        if kind == "ay":
+            t = dc.app(f, dc.var(Yv), n(rng.randint(0, 2)))
+            if rng.random() < 0.15:
+                t = dc.app("plus", t, n(1)) if rng.random() < 0.5 else dc.app(f, n(rng.randint(0, 2)), dc.var(Yv))
+            return t
+        return dc.app(f, dc.var(Yv), dc.var(Zv))
+    uses = {"c": [], "x": [Xv], "w": [], "ay": [Yv], "ayz": [Yv, Zv]}
+    kinds = ["c", "x", "ay", "ayz", "w"]
+    out = []
+    for lk in kinds:
+        for rk in kinds:
+            vs = sorted(set(uses[lk] + uses[rk]))
+            for places in itertools.product("LRN", repeat=len(vs)):
+                eq = ["eq", side(lk), side(rk)]
+                left = [["atom", dc.atom(rng.choice([1, 3]), dc.var(v))] for v, pl in zip(vs, places) if pl == "L"]
+                right = [["atom", dc.atom(rng.choice([1, 3]), dc.var(v))] for v, pl in zip(vs, places) if pl == "R"]
+                rng.shuffle(left)
+                rng.shuffle(right)
+                body = left + [eq] + right
+                heads = [dc.atom(HEAD, *[dc.var(v) for v in vs])] if vs else [dc.atom(HEAD, n(1))]
+                if len(vs) > 1:
+                    heads.append(dc.atom(HEAD, dc.var(rng.choice(vs))))
+                for h in heads:
+                    out.append({"clause": dc.clause(h, body), "edb": gen_edb(rng),
+                                "shape": "eq-%s=%s" % (lk, rk)})
+    return out
+
+
+# ------------------------------------------------------- stream B: built-in predicate atoms
+# Built-in goals  ["bi", name, [term, ...]]  and negated ones  ["nbi", name, [term, ...]]; constants
+# additionally ["map", [[k, v], ...]] and ["struct", [[name, v], ...]]. The table below is used to
+# build type-correct arguments and as the meaning of each built-in for the oracle (its documented
+# relation) - never to predict the verdict of analysis (that is the Coq model's go_table).
+BI = {  # name: (predicate number in coq/Analysis/BuiltinCheck.v, column type of each place)
+    ":match_pair": (100, "PNN"), ":match_cons": (101, "LNL"), ":match_nil": (102, "L"),
+    ":match_field": (103, "SAN"), ":match_entry": (104, "MNN"), ":list:member": (105, "NL"),
+    ":within_distance": (106, "NNN"), ":match_prefix": (107, "AA"), ":string:starts_with": (108, "TT"),
+    ":string:ends_with": (109, "TT"), ":string:contains": (110, "TT"), ":filter": (111, "B"),
+    ":lt": (112, "NN"), ":le": (113, "NN"), ":gt": (114, "NN"), ":ge": (115, "NN"),
+}
+B_PRED = {"N": 1, "P": 5, "L": 6, "M": 7, "S": 8, "A": 9, "T": 10, "B": 11}     # column type -> EDB predicate
+B_EXTRA = EXTRA + [["p%d" % k, 1] for k in sorted(B_PRED.values()) if k != 1]
+B_VALUES = {
+    "N": [dc.num(1), dc.num(2), dc.num(3)],
+    "P": [dc.pair(dc.num(1), dc.num(2)), dc.pair(dc.num(2), dc.num(2)), dc.pair(dc.num(3), dc.num(1))],
+    "L": [dc.lst([dc.num(1), dc.num(2)]), dc.lst([dc.num(2)]), dc.lst([dc.num(3), dc.num(1), dc.num(2)]), dc.lst([])],
+    "M": [["map", [[dc.num(1), dc.num(2)], [dc.num(3), dc.num(1)]]], ["map", [[dc.num(2), dc.num(2)]]]],
+    "S": [["struct", [[dc.name("/a"), dc.num(1)], [dc.name("/b"), dc.num(2)]]], ["struct", [[dc.name("/a"), dc.num(3)]]]],
+    "A": [dc.name("/a"), dc.name("/b"), dc.name("/a/x"), dc.name("/b/y")],
+    "T": [dc.string("ab"), dc.string("b"), dc.string("abc")],
+    "B": [dc.name("/true"), dc.name("/false")],
+}
+MODE_PAT = ("not a value", "not a constant", "bad pattern", "must be variables", "unbound", "not bound", "no value",
+            "free variable", "should never happen")
+
+
+def x_const_text(c):
+    if c[0] == "map":
+        return "[%s]" % ", ".join("%s : %s" % (x_const_text(k), x_const_text(v)) for k, v in c[1]) if c[1] else "fn:map()"
+    if c[0] == "struct":
+        return "{%s}" % ", ".join("%s : %s" % (x_const_text(k), x_const_text(v)) for k, v in c[1])
+    if c[0] == "pair":
+        return "fn:pair(%s, %s)" % (x_const_text(c[1]), x_const_text(c[2]))
+    if c[0] == "list" and any(x[0] in ("map", "struct") for x in c[1]):
+        return "[%s]" % ", ".join(x_const_text(x) for x in c[1])
+    return dc.const_text(c)
+
+
+def x_term_text(t):
+    if t[0] == "c":
+        return x_const_text(t[1])
+    if t[0] == "app":
+        return "%s(%s)" % (dc.FN_TEXT.get(t[1], t[1]), ", ".join(x_term_text(x) for x in t[2]))
+    return dc.term_text(t)
+
+
+def x_premise_text(p):
+    if p[0] in ("bi", "nbi"):
+        return ("!" if p[0] == "nbi" else "") + "%s(%s)" % (p[1], ", ".join(x_term_text(t) for t in p[2]))
+    return dc.premise_text(p)
+
+
+def x_source(case):
+    c = case["clause"]
+    lines = ["%s(%s)." % (dc.pred_name(f["p"]), ", ".join(x_const_text(a) for a in f["args"])) for f in case["edb"]]
+    s = dc.atom_text(c["head"]) + " :- " + ", ".join(x_premise_text(p) for p in c["body"])
+    return "\n".join(lines) + "\n" + s + ("." if s.endswith(")") else " .") + "\n"
+
+
+def xq_term(t):
+    """Coq term; a constant the syntax cannot express is sent as CNum 0 and a function outside
+    Interp's table as FOther (the analysis model looks at neither)"""
+    if t[0] == "c":
+        try:
+            return C("TConst", dc.cq_const(t[1]))
+        except ValueError:
+            return C("TConst", C("CNum", 0))
+    if t[0] == "app":
+        f = Raw(dc.FN[t[1]]) if t[1] in dc.FN else C("FOther", 0)
+        return C("TApp", f, [xq_term(x) for x in t[2]])
+    return cq_term(t)
+
+
+def xq_premise(p):
+    if p[0] in ("bi", "nbi"):
+        a = C("mkAtom", BI[p[1]][0], [xq_term(t) for t in p[2]])
+        return C("PAtom" if p[0] == "bi" else "PNeg", a)
+    return cq_premise(p)
+
+
+def xq_case(case, o):
+    c = case["clause"]
+    cl = C("mkClause", cq_atom(c["head"]), [xq_premise(p) for p in c["body"]], [])
+    return coq(C("mkCase", cl, [], -1, o["stage"] == "ok", list(o["perm"]), Raw("ONone")))
+
+
+def tup(c):
+    """hashable form of a constant"""
+    k = c[0]
+    if k in ("n", "name", "s"):
+        return (k, c[1])
+    if k == "pair":
+        return ("pair", tup(c[1]), tup(c[2]))
+    if k == "list":
+        return ("list", tuple(tup(x) for x in c[1]))
+    if k in ("map", "struct"):
+        return (k, tuple((tup(a), tup(b)) for a, b in c[1]))
+    raise ValueError(c)
+
+
+def subconsts(v, acc):
+    if v in acc:
+        return
+    acc.add(v)
+    if v[0] == "pair":
+        subconsts(v[1], acc), subconsts(v[2], acc)
+    elif v[0] == "list":
+        for i, x in enumerate(v[1]):
+            subconsts(x, acc)
+            subconsts(("list", v[1][i + 1:]), acc)
+    elif v[0] in ("map", "struct"):
+        for a, b in v[1]:
+            subconsts(a, acc), subconsts(b, acc)
+
+
+def b_ev(t, s):
+    """value of a term of the built-in stream under an assignment"""
+    k = t[0]
+    if k == "var":
+        if t[1] not in s:
+            raise Undefined()
+        return s[t[1]]
+    if k == "c":
+        return tup(t[1])
+    if k == "app":
+        xs = [b_ev(x, s) for x in t[2]]
+        if t[1] in ("plus", "minus", "mult"):
+            if len(xs) != 2 or any(x[0] != "n" for x in xs):
+                raise Undefined()
+            return ("n", {"plus": xs[0][1] + xs[1][1], "minus": xs[0][1] - xs[1][1], "mult": xs[0][1] * xs[1][1]}[t[1]])
+        if t[1] == "pair" and len(xs) == 2:
+            return ("pair", xs[0], xs[1])
+        if t[1] == "list":
+            return ("list", tuple(xs))
+        if t[1] == "fn:map" and len(xs) == 2:
+            return ("map", ((xs[0], xs[1]),))
+        if t[1] == "fn:struct" and len(xs) == 2:
+            return ("struct", ((xs[0], xs[1]),))
+    raise Undefined()
+
+
+def bi_rel(name, a):
+    """the relation a built-in stands for, on values"""
+    def nums():
+        if any(x[0] != "n" for x in a):
+            raise Undefined()
+        return [x[1] for x in a]
+
+    def strs(kind):
+        if any(x[0] != kind for x in a):
+            raise Undefined()
+        return [x[1] for x in a]
+    if name == ":match_pair":
+        return a[0][0] == "pair" and a[0][1] == a[1] and a[0][2] == a[2]
+    if name == ":match_cons":
+        return a[0][0] == "list" and len(a[0][1]) > 0 and a[0][1][0] == a[1] and ("list", a[0][1][1:]) == a[2]
+    if name == ":match_nil":
+        return a[0] == ("list", ())
+    if name in (":match_entry", ":match_field"):
+        if a[0][0] != ("map" if name == ":match_entry" else "struct"):
+            return False
+        for k, v in a[0][1]:
+            if k == a[1]:
+                return v == a[2]
+        return False
+    if name == ":list:member":
+        if a[1][0] != "list":
+            raise Undefined()
+        return a[0] in a[1][1]
+    if name in (":lt", ":le", ":gt", ":ge"):
+        x, y = nums()
+        return {":lt": x < y, ":le": x <= y, ":gt": x > y, ":ge": x >= y}[name]
+    if name == ":within_distance":
+        x, y, z = nums()
+        return abs(x - y) < z
+    if name == ":match_prefix":
+        x, y = strs("name")
+        return x.startswith(y) and len(x) > len(y)
+    if name in (":string:starts_with", ":string:ends_with", ":string:contains"):
+        x, y = strs("s")
+        return {":string:starts_with": x.startswith(y), ":string:ends_with": x.endswith(y), ":string:contains": y in x}[name]
+    if name == ":filter":
+        return a[0] == ("name", "/true")
+    raise ValueError(name)
+
+
+def b_lit_holds(p, s, facts, dom):
+    k = p[0]
+    if k == "atom":
+        a = p[1]
+        try:
+            vals = [None if t == WILD else b_ev(t, s) for t in a["args"]]
+        except Undefined:
+            return False
+        return any(f[0] == a["p"] and all(v is None or v == w for v, w in zip(vals, f[1])) for f in facts)
+    if k in ("bi", "nbi"):
+        try:
+            vals = [None if t == WILD else b_ev(t, s) for t in p[2]]
+        except Undefined:
+            return False
+        holes = [i for i, v in enumerate(vals) if v is None]
+        found = False
+        for combo in itertools.product(dom, repeat=len(holes)):
+            for i, v in zip(holes, combo):
+                vals[i] = v
+            try:
+                if bi_rel(p[1], vals):
+                    found = True
+                    break
+            except Undefined:
+                pass
+        return found if k == "bi" else not found
+    raise ValueError(p)
+
+
+def b_oracle(case):
+    """Head facts of a clause of the built-in stream under the declarative reading (every literal
+    holds; a built-in is its relation; wildcards existential per literal, inside the negation for a
+    negated literal): candidates of a variable are the column of a binder atom it occurs in, else
+    the closure of all constants under components, tails, entries and the clause's function
+    applications."""
+    c = case["clause"]
+    facts = [(f["p"], [tup(a) for a in f["args"]]) for f in case["edb"]]
+    dom = set()
+    for _, args in facts:
+        for a in args:
+            subconsts(a, dom)
+    apps, named = [], set()
+
+    def scan(t):
+        if t[0] == "c":
+            subconsts(tup(t[1]), dom)
+        elif t[0] == "var":
+            named.add(t[1])
+        elif t[0] == "app":
+            apps.append(t)
+            for x in t[2]:
+                scan(x)
+    for p in c["body"]:
+        for t in (p[1]["args"] if p[0] == "atom" else p[2]):
+            scan(t)
+    for t in c["head"]["args"]:
+        scan(t)
+    base = sorted(dom)
+    for a in apps:
+        vs = set()
+        tvars(a, vs)
+        vs = sorted(vs)
+        for combo in itertools.product(base, repeat=len(vs)):
+            try:
+                subconsts(b_ev(a, dict(zip(vs, combo))), dom)
+            except Undefined:
+                pass
+    dom = sorted(dom)
+    cand = {}
+    for v in named:
+        cs = None
+        for p in c["body"]:
+            if p[0] == "atom" and p[1]["args"] == [dc.var(v)]:
+                col = set(f[1][0] for f in facts if f[0] == p[1]["p"])
+                cs = col if cs is None else cs & col
+        cand[v] = sorted(cs) if cs is not None else dom
+    named = sorted(named)
+    out = set()
+    for combo in itertools.product(*[cand[v] for v in named]):
+        s = dict(zip(named, combo))
+        if all(b_lit_holds(p, s, facts, dom) for p in c["body"]):
+            try:
+                out.add(tuple(b_ev(t, s) for t in c["head"]["args"]))
+            except Undefined:
+                pass
+    return sorted(out)
+
+
+def b_const_term(ty, rng):
+    return dc.cst(rng.choice(B_VALUES[ty]))
+
+
+def b_fn_term(ty, inner):
+    """a function application of column type ty over the number variable inner (None: no such)"""
+    v = dc.var(inner)
+    if ty == "N":
+        return dc.app("plus", v, n(0))
+    if ty == "P":
+        return dc.app("pair", v, n(2))
+    if ty == "L":
+        return dc.app("list", v, n(2))
+    if ty == "M":
+        return dc.app("fn:map", v, n(2))
+    if ty == "S":
+        return dc.app("fn:struct", dc.cst(dc.name("/a")), v)
+    return None
+
+
+def b_known_trigger(neg, name, kinds):
+    """the triggers of the recorded findings N105-N107 (N108 is avoided by construction: the
+    variable inside a function application is never one of the atom's own output variables)"""
+    if neg and name in (":match_pair", ":match_cons") and any(k != "W" for k in kinds[1:]):
+        return "N105"
+    if neg and name in (":match_entry", ":match_field") and kinds[1] == "W":
+        return "N106"
+    return None
+
+
+def b_case(rng, name, kinds, neg):
+    """one clause: binder atoms of the BL variables, the built-in goal, binder atoms of the BR
+    variables. kinds per place: BL variable bound by an atom to the left, BR bound only further
+    right, U no binder atom, C type-correct constant, W wildcard, FL / FR function application over
+    a number variable bound to the left / only further right."""
+    types = BI[name][1]
+    args, left, right, named = [], [], [], []
+    for i, (k, ty) in enumerate(zip(kinds, types)):
+        if k in ("FL", "FR") and b_fn_term(ty, 0) is None:
+            k = "B" + k[1]
+        if k in ("BL", "BR", "U"):
+            args.append(dc.var(i))
+            named.append(i)
+            if k != "U":
+                (left if k == "BL" else right).append(["atom", dc.atom(B_PRED[ty], dc.var(i))])
+        elif k == "C":
+            args.append(b_const_term(ty, rng))
+        elif k == "W":
+            args.append(list(WILD))
+        else:
+            args.append(b_fn_term(ty, 3 + i))
+            named.append(3 + i)
+            (left if k == "FL" else right).append(["atom", dc.atom(B_PRED["N"], dc.var(3 + i))])
+    rng.shuffle(left)
+    rng.shuffle(right)
+    body = left + [["nbi" if neg else "bi", name, args]] + right
+    hv = list(named)
+    if len(hv) > 1 and rng.random() < 0.4:
+        hv = [v for v, k in zip(range(len(kinds)), kinds) if k in ("BL", "BR")] or hv[:1]
+    head = dc.atom(HEAD, *[dc.var(v) for v in hv]) if hv else dc.atom(HEAD, n(1))
+    edb = []
+    for ty, p in sorted(B_PRED.items()):
+        vals = list(B_VALUES[ty])
+        rng.shuffle(vals)
+        keep = vals[:rng.randint(2, len(vals))]
+        if ty == "L" and all(v[1] == [] for v in keep):
+            keep.append(B_VALUES["L"][0])          # a list column is never "empty lists only" (N24)
+        edb += [dc.fact(p, v) for v in keep]
+    return {"clause": {"head": head, "body": body, "let": []}, "edb": edb, "bi": True,
+            "shape": "builtin%s%s" % ("-neg" if neg else "", "-fn" if any(k in ("FL", "FR") for k in kinds) else "")}
+
+
+def builtin_cases(rng, nfn):
+    """every built-in of the table x every combination of BL / BR / U / C / W over its places,
+    positive and negated (minus the recorded triggers), plus nfn random ones with a function
+    application at some place"""
+    out = []
+    base = ["BL", "BR", "U", "C", "W"]
+    for name in sorted(BI):
+        ar = len(BI[name][1])
+        for neg in (False, True):
+            for kinds in itertools.product(base, repeat=ar):
+                if b_known_trigger(neg, name, kinds):
+                    continue
+                out.append(b_case(rng, name, kinds, neg))
+    names = sorted(BI)
+    for _ in range(nfn):
+        name = rng.choice(names)
+        ar = len(BI[name][1])
+        kinds = [rng.choice(base) for _ in range(ar)]
+        kinds[rng.randrange(ar)] = rng.choice(["FL", "FL", "FR"])
+        neg = rng.random() < 0.3
+        if b_known_trigger(neg, name, kinds):
+            continue
+        out.append(b_case(rng, name, kinds, neg))
+    return out
+
+
+def go_case_b(case):
+    return {"src": x_source(case), "extra": B_EXTRA, "limit": 20000, "timeout_ms": 20000}
+
+
+def b_facts_from_go(facts):
+    return sorted(set(tuple(tup(a) for a in f["args"]) for f in facts))
+
+
+def classify_bi(case, o):
+    """Property verdict on Go's own output for a clause of the built-in stream (an independent
+    property-level oracle, no model involved): accepted => evaluation does not panic, does not fail
+    with a binding / mode error of a built-in or function (a value missing where one is needed, a
+    value present where a free variable is needed), stores ground facts only, and yields the
+    declarative result. Errors about the TYPE of a value are not this property's."""
+    if o["stage"] != "ok":
+        return None
+    if sorted(o["perm"]) != list(range(o["nprem"])):
+        return "accepted by analysis, but the rule handed to the engine is not a permutation of the rule as written: " + str(o.get("rule"))
+    if o["err"] == "panic":
+        return "accepted by analysis, evaluation panics: " + o.get("emsg", "")[:200]
+    if o["nonground"]:
+        return "accepted by analysis, a non-ground atom was stored: %s" % o["nonground"][:3]
+    if o["err"] == "eval" and any(s in o.get("emsg", "") for s in MODE_PAT):
+        return "accepted by analysis, evaluation of a built-in fails for lack of a value (binding mode): " + o.get("emsg", "")[:200]
+    if o["err"]:
+        return None
+    if b_facts_from_go(o["facts"]) != b_oracle(case):
+        return "accepted by analysis, but the result differs from the meaning of the clause as written (built-in stream)"
+    return None
+
+
 # ----------------------------------------------------------------- known findings
 N61_CASE = {"clause": dc.clause(dc.atom(HEAD, X), [["atom", dc.atom(1, dc.app("plus", X, n(1)))]]),
             "edb": [dc.fact(1, dc.num(1)), dc.fact(1, dc.num(2))], "shape": "probe"}
